@@ -194,6 +194,25 @@ theorem value_hex_rt (bs : List Nat) (h : ∀ b ∈ bs, b < 256) : Value.parse (
   rw [h1, h2, trimStartMatches_stop _ _ hx.2, hexDecode_encode true bs h]
   rfl
 
+/-- **128-bit IVs round-trip** (written as `0x` + 32 lowercase hex digits) -/
+theorem iv_rt (v : Nat) (h : v < 2 ^ 128) :
+    InitializationVector.parse (InitializationVector.show (.aes128 v)) = .ok (.aes128 v) := by
+  obtain ⟨hl, hb, hv⟩ := natToBytes_spec 16 v
+  have hs : InitializationVector.show (.aes128 v) = "0x".toList ++ hexEncode false (natToBytes 16 v) := by
+    unfold InitializationVector.show; rfl
+  rw [hs]
+  simp only [InitializationVector.parse]
+  have h1 : startsWith ("0x".toList ++ hexEncode false (natToBytes 16 v)) "0x".toList = true := by
+    simp [startsWith, List.isPrefixOf]
+  have hd : ("0x".toList ++ hexEncode false (natToBytes 16 v)).drop 2 = hexEncode false (natToBytes 16 v) := by simp
+  have hlen : utf8Len (hexEncode false (natToBytes 16 v)) = 32 := by rw [hexEncode_utf8Len false _ hb, hl]
+  simp only [h1, Bool.true_or, Bool.not_true, Bool.false_eq_true, if_false, hd, hlen, bne_self_eq_false,
+    hexDecode_encode false _ hb, hv]
+  have : v % 256 ^ 16 = v := Nat.mod_eq_of_lt (by
+    have e : (256 : Nat) ^ 16 = 2 ^ 128 := by rfl
+    rw [e]; exact h)
+  rw [this]
+
 /-! ## strings in quotes: key formats, closed captions, client attribute strings -/
 
 /-- a string the quoted form can carry: no double quote, CR or LF -/
